@@ -293,11 +293,14 @@ def _blank_rule(ctx, to_list: FuncInfo):
                 n += 1
                 p = prog.parent(js)
                 line_holes = [h for h in holes if h != 'self._whitespace']
-                ok = isinstance(p, ast.IfExp) and p.body is js and const_is_empty(p.orelse) and line_holes and \
-                    any(h in ast.unparse(p.test) for h in line_holes)
-                run.add('C18.blank', fn.module.name, fn.qualname, p if isinstance(p, ast.IfExp) else js, bool(ok),
+                guarded = isinstance(p, ast.IfExp) and p.body is js and const_is_empty(p.orelse) and line_holes
+                blank_test = guarded and any(_is_nonblank_test(p.test, h) for h in line_holes)
+                ok = bool(guarded and blank_test)
+                run.add('C18.blank', fn.module.name, fn.qualname, p if isinstance(p, ast.IfExp) else js, ok,
                         'whitespace prefix only on non-blank lines, blank lines stay empty' if ok else
-                        'the whitespace prefix is applied unconditionally: blank lines get trailing whitespace', node=js)
+                        ('the whitespace prefix is applied unconditionally: blank lines get trailing whitespace' if not guarded else
+                         f'the guard `{ast.unparse(p.test)[:40]}` is not a blankness test (<line>.strip()): a line of blanks only '
+                         f'is kept and prefixed - trailing whitespace is introduced'), node=js)
             if 'self._bulletized_indent' in holes:
                 n += 1
                 p = prog.parent(js)
@@ -310,6 +313,27 @@ def _blank_rule(ctx, to_list: FuncInfo):
     if n < 3:
         run.error('C18.blank', to_list.module.name, to_list.qualname, 'prefix expressions',
                   f'only {n} prefixing expressions recognised in to_list (3 confirmed by hand)')
+
+
+def _is_nonblank_test(test: ast.expr, line: str) -> bool:
+    """`test` is true exactly for lines with a non-blank character: <line>.strip() (also lstrip/rstrip), optionally compared
+    with '' or measured with len(); `<line> and not <line>.isspace()`."""
+    t = test
+    if isinstance(t, ast.Compare) and len(t.ops) == 1:
+        l, r, op = t.left, t.comparators[0], t.ops[0]
+        if isinstance(r, ast.Constant) and r.value == '' and isinstance(op, ast.NotEq):
+            t = l
+        elif isinstance(l, ast.Call) and getattr(l.func, 'id', '') == 'len' and len(l.args) == 1 and \
+                isinstance(r, ast.Constant) and r.value == 0 and isinstance(op, (ast.Gt, ast.NotEq)):
+            t = l.args[0]
+    if isinstance(t, ast.Call) and isinstance(t.func, ast.Attribute) and t.func.attr in ('strip', 'lstrip', 'rstrip') \
+            and not t.args and ast.unparse(t.func.value) == line:
+        return True
+    if isinstance(t, ast.BoolOp) and isinstance(t.op, ast.And) and len(t.values) == 2:
+        a, b = t.values
+        if ast.unparse(a) == line and ast.unparse(b) == f'not {line}.isspace()':
+            return True
+    return False
 
 
 def const_is_empty(e: ast.AST) -> bool:
